@@ -11,6 +11,8 @@ import (
 	"verifharness/gl/c14"
 	"verifharness/gl/c17"
 	"verifharness/gl/c20"
+	"verifharness/lib/c06"
+	"verifharness/lib/c08"
 	"verifharness/lib/c12"
 	"verifharness/lib/c13"
 	"verifharness/lib/c16"
@@ -25,6 +27,8 @@ var cmds = map[string]func([]string) int{
 	"C01": c01.Main,
 	"C04": c04.Main,
 	"C05": c05.Main,
+	"C06": c06.Main,
+	"C08": c08.Main,
 	"C09": c09.Main,
 	"C10": c10.Main,
 	"C11": c11.Main,
